@@ -138,6 +138,10 @@ def classify_crash(fn, exprs, crash):
         return 'unbound-method-receiver-type-unchecked:%s' % spec.recv
     if fn.typing == 'typed' and kinds[0] == 'None' and fn.helper is None:
         return 'typed-none-receiver-unchecked:cached-method'
+    if spec.name.startswith('bytes.') and 'swith' in spec.name and 'int:big' in kinds[1:]:
+        # start close to PY_SSIZE_T_MAX: "start + sub_len <= end" overflows in __Pyx_PyBytes_SingleTailmatch and memcmp
+        # reads far outside the object
+        return 'bytes-tailmatch-start-overflow'
     return 'crash:%s:%s:%s' % (spec.name, fn.typing, ','.join(kinds))
 
 
